@@ -2,6 +2,7 @@
 package c06
 
 import (
+	"github.com/sdcio/yang-parser/xpath/grammars/expr"
 	"encoding/json"
 	"fmt"
 	"sort"
@@ -35,7 +36,47 @@ func init() {
 }
 
 var compileExprs = []string{"1", "concat('a', 'b')", "contains(a, 'x')", "not(true())", "1 +", "foo(1)"}
-var machineExprs = []string{"a = 'x'", "/l[k = current()/../x]/v", "string-length(concat(a, b))", "l[k = ../x][j = 'c']/v"}
+var machineExprs = []string{"a = 'x'", "/l[k = current()/../x]/v", "string-length(concat(a, b))", "l[k = ../x][j = 'c']/v", "vf-probe(string(a))"}
+
+// customMachine is the index of the machine that calls a registered custom (plugin) function.
+const customMachine = 4
+
+// registerCustom (re-)registers the custom function used by machine 4.  It panics on the values
+// of context position 0 - after an explicit scheduling point, so that another run can complete
+// in between - and returns normally on those of position 1; a panicking custom function must
+// yield its default value, whatever other runs do.
+func registerCustom() {
+	xpath.RegisterCustomFunctions([]xpath.CustomFunctionInfo{{
+		Name: "vf-probe",
+		FnPtr: func(args []xpath.Datum) xpath.Datum {
+			v := args[0].Literal("vf-probe")
+			if strings.HasPrefix(v, "/alt/") {
+				return xpath.NewLiteralDatum("OK:" + v)
+			}
+			verifrt.Yield()
+			panic("vf-probe: boom on " + v)
+		},
+		Args:          []xpath.DatumTypeChecker{xpath.TypeIsLiteral},
+		RetType:       xpath.TypeIsLiteral,
+		DefaultRetVal: xpath.NewLiteralDatum("DEFAULT"),
+	}})
+}
+
+func compileMachine(i int) *xpath.Machine {
+	if i == customMachine {
+		registerCustom()
+		m, err := expr.NewExprMachineWithCustomFunctions(machineExprs[i], nil)
+		if err != nil {
+			panic(fmt.Sprint("c06: cannot compile ", machineExprs[i], err))
+		}
+		return m
+	}
+	m, err, p := xpx.Compile(machineExprs[i], nil)
+	if err != nil || p != nil {
+		panic(fmt.Sprint("c06: cannot compile ", machineExprs[i], err, p))
+	}
+	return m
+}
 
 type op struct {
 	Kind string `json:"kind"` // compile | run | runfail
@@ -56,13 +97,10 @@ func ensureMachines() {
 	if machines != nil {
 		return
 	}
-	for _, e := range machineExprs {
-		m, err, p := xpx.Compile(e, nil)
-		if err != nil || p != nil {
-			panic(fmt.Sprint("c06: cannot compile shared machine ", e, err, p))
-		}
-		machines = append(machines, m)
+	for i := range machineExprs {
+		machines = append(machines, compileMachine(i))
 	}
+	verifrt.RestoreAll() // (the registration of the custom function is not part of the initial state)
 	// the snapshot of global state is the one taken at process start (plugins not loaded)
 }
 
@@ -75,11 +113,10 @@ func performFresh(o op) string {
 		return performOn(o, nil)
 	}
 	ms := make([]*xpath.Machine, len(machineExprs))
-	m, err, p := xpx.Compile(machineExprs[o.Arg], nil)
-	if err != nil || p != nil {
-		panic(fmt.Sprint("c06: cannot compile ", machineExprs[o.Arg], err, p))
+	ms[o.Arg] = compileMachine(o.Arg)
+	if o.Arg == customMachine {
+		defer verifrt.RestoreAll()
 	}
-	ms[o.Arg] = m
 	return performOn(o, ms)
 }
 
